@@ -12,7 +12,8 @@ CHECK = {
                     'gcc 12 ASan/UBSan runtimes; harness reference model (arrays of element pointers)',
                     'dbg-asan keeps the library asserts live; rel-asan is the NDEBUG build as shipped'],
     'runs': [
-        {'harness': 'slist', 'sources': ['harness/slist.c'] + EX, 'configs': both(['dbg-asan', 'rel-asan'])},
+        {'harness': 'slist', 'sources': ['harness/slist.c'] + EX, 'configs': both(['dbg-asan', 'rel-asan'], ['dbg-asan', 'rel-asan', 'rel-plain']),
+         'max_cases': {'rel-plain': 400}, 'workers': 16},
     ],
 }
 
